@@ -212,6 +212,11 @@ func (info Table) Append(buf []byte) []byte {
 	encInfo := info.getEncInfo()
 
 	if encInfo.format1Size <= encInfo.format2Size {
+		if int(encInfo.maxGid)-int(encInfo.minGid)+1 > 0xFFFF {
+			// neither the glyph count of format 1 nor the range count of
+			// format 2 fits into 16 bits
+			panic("class definition table too large")
+		}
 		count := encInfo.maxGid - encInfo.minGid + 1
 		buf = append(buf,
 			0, 1,
